@@ -10,4 +10,5 @@ EXPLANATION = "The 'iff' is decomposed into one obligation group per clause of t
 LEVEL_TEXT = "Deductive proof per clause of the statement where the function is within reach; bounded rewrite / one-defect sweep against Cid.read for the rest."
 LEVEL_NOTE = "Trusts A-TOK, A-STR (lower/strip uninterpreted), the pyvc encoding, z3/cvc5."
 TECHNIQUE = "contract-based deductive verification (VCs from the ast of the real functions, z3/cvc5) + bounded defect catalogue sweep"
-UNITS = [IF.unit_cid_read(), IF.unit_validated_field_name(), IF.unit_add_data_format_row(), IF.unit_create_class_and_check_row(), IF.unit_c09_catalogue()]
+from contracts import checks as CK
+UNITS = [CK.unit_is_unique_init(), IF.unit_cid_read(), IF.unit_validated_field_name(), IF.unit_add_data_format_row(), IF.unit_create_class_and_check_row(), IF.unit_c09_catalogue()]
